@@ -211,3 +211,53 @@ Definition blob_view (nk : nat) (e : blob_event) : list (sid * sobs) :=
   end.
 
 Definition blob_views (nk : nat) (h : list blob_event) : list (list (sid * sobs)) := map (blob_view nk) h.
+
+(** ** Kubernetes (reading of a watch event, from the property text) *)
+From HV Require Import C18.ModelK8s.
+
+(** a RuleSet object of the provider's auth class shows its rules; an object of
+    another class, or a deleted one, is not (any more) a source of this instance *)
+Definition k8s_view (e : k8s_event) : list (sid * sobs) :=
+  let o := snd e in
+  [(Sid (k_uid o),
+    match fst e with
+    | WAdded | WModified => if k_cls o then SNew (k_cid o) else SGone
+    | WDeleted => SGone
+    end)].
+
+Definition k8s_views (h : list k8s_event) : list (list (sid * sobs)) := map k8s_view h.
+
+(** The Kubernetes provider keeps no record of what it applied; it hands every
+    change to the processor, whose operations are idempotent (updating a rule set
+    that is not loaded loads it, deleting one that is not loaded does nothing,
+    updating to the loaded content changes nothing).  Its traces are therefore read
+    modulo such calls: [norm_trace] drops the accepted calls that do not change
+    what is loaded and names a load of a source that has nothing loaded OnCreated. *)
+Definition norm_call (a : amap) (p : pcall) : list pcall :=
+  if p_ok p then
+    match p_kind p with
+    | KDeleted => match a (p_src p) with None => [] | Some _ => [p] end
+    | KCreated | KUpdated =>
+      match a (p_src p), p_cid p with
+      | None, _ => [ {| p_kind := KCreated; p_src := p_src p; p_cid := p_cid p; p_ok := true |} ]
+      | Some x, Some c => if Nat.eqb x c then []
+                          else [ {| p_kind := KUpdated; p_src := p_src p; p_cid := p_cid p; p_ok := true |} ]
+      | Some _, None => [p]
+      end
+    end
+  else [p].
+
+Fixpoint norm_calls (a : amap) (ps : list pcall) : list pcall :=
+  match ps with
+  | [] => []
+  | p :: r => norm_call a p ++ norm_calls (apply_call a p) r
+  end.
+
+Fixpoint norm_trace_from (a : amap) (tr : list tstep) : list tstep :=
+  match tr with
+  | [] => []
+  | st :: r => {| t_obs := t_obs st; t_calls := norm_calls a (t_calls st) |}
+               :: norm_trace_from (apply_calls a (t_calls st)) r
+  end.
+
+Definition norm_trace (tr : list tstep) : list tstep := norm_trace_from a_empty tr.
